@@ -233,6 +233,7 @@ def run_history(kind, seed, nops, ops=None, want_sites=False, kinds=None):
         try:
             d = editgen.apply(doc, seed, i, gen, kinds)
         except Exception as e:
+            core.note_skip('c02:edit', e)
             return dict(ok=True, skipped='edit raised %s' % type(e).__name__, hist=hist)
         if d:
             hist.append('%d:%s' % (i, d))
